@@ -17,3 +17,15 @@ Theorem C05_walk_order_independent :
   forall chk rs1 rs2 p, Permutation rs1 rs2 -> NoDup (map fst rs1) -> W chk rs1 p = W chk rs2 p.
 Proof. exact W_perm. Qed.
 Print Assumptions C05_walk_order_independent.
+
+(* ---- for every pair of histories on the model router ---- *)
+From WF Require Import Model.Router Proofs.ReachP.
+Theorem C05_reachable_same_routes_same_answers :
+  forall b1 b2 (ops1 ops2 : list op) chk p,
+    Permutation (routes_of (r_root (run b1 ops1))) (routes_of (r_root (run b2 ops2))) ->
+    NoDup (map fst (routes_of (r_root (run b1 ops1)))) ->
+    rsearch chk (run b1 ops1) p = rsearch chk (run b2 ops2) p.
+Proof.
+  intros b1 b2 ops1 ops2 chk p Hp Hn. apply search_same_routes; auto using reachable_inv_b.
+Qed.
+Print Assumptions C05_reachable_same_routes_same_answers.
